@@ -2,6 +2,7 @@
 """Maintenance helper: print the seeded-change detection matrix (markdown) from /verif/seeded/*/meta.json."""
 import glob, json, os
 rows = []
+first = later = miss = 0
 for d in sorted(glob.glob('/verif/seeded/*')):
     mp = os.path.join(d, 'meta.json')
     if not os.path.exists(mp):
@@ -10,8 +11,15 @@ for d in sorted(glob.glob('/verif/seeded/*')):
     det = m.get('detected_by', {})
     title = m.get('title', '').split(' - ', 1)[-1].replace('|', '/')
     caught = ', '.join(f"{r} (check {p})" if p != m['property'] else r for p, r in det.items()) or '**not caught** - ' + m.get('why_missed', 'see text')
-    rows.append(f"| {os.path.basename(d)} | {title[:110]} | {caught} |")
-print("| seed | change | reported by |\n|------|--------|-------------|")
+    hist = m.get('history', '')
+    if not det:
+        miss += 1
+    elif hist:
+        later += 1
+    else:
+        first += 1
+    rows.append(f"| {os.path.basename(d)} | {title[:100]} | {caught} | {hist.replace('|', '/') if hist else 'reported by the rule set as it stood'} |")
+print("| seed | change | reported by | history |\n|------|--------|-------------|---------|")
 print("\n".join(rows))
-n = len(rows); miss = sum('not caught' in r for r in rows)
-print(f"\n{n} confirmed seeded changes, {n - miss} reported by a rule, {miss} not.")
+n = len(rows)
+print(f"\n{n} confirmed seeded changes: {first} reported by the rule sets as they stood when the change arrived, {later} reported after a clause was added or a stand-in model extended (see history), {miss} not reported.")
